@@ -210,6 +210,7 @@ pub fn facts_sexp(c: &Case) -> String {
     let want_json = c.defs.contains('{');
     let want_f64 = c.defs.to_lowercase().contains("real");
     let mut texts: BTreeSet<String> = BTreeSet::new();   // everything a column value can be made of
+    let ship_docs = crate::util::ship_facts(crate::util::SITE_E2E_DOC);
     let mut lines = String::from("(lines");
     for l in &all_lines {
         texts.insert(l.clone());
@@ -234,9 +235,13 @@ pub fn facts_sexp(c: &Case) -> String {
             lines.push(')');
         }
         lines.push_str(") ");
-        match (want_json, serde_json::from_str::<serde_json::Value>(l)) {
-            (true, Ok(j)) => { lines.push_str("(json "); json_sexp(&j, &mut lines, &mut texts); lines.push(')'); }
-            _ => lines.push_str("nojson"),
+        // shipped (`(json J)` / `notjson`) for every second case, computed by the model (`compute`) for the others
+        match (want_json, serde_json::from_str::<serde_json::Value>(l), ship_docs) {
+            (true, Ok(j), true) => { lines.push_str("(json "); json_sexp(&j, &mut lines, &mut texts); lines.push(')'); }
+            (true, Err(_), true) => lines.push_str("notjson"),
+            (true, Ok(j), false) => { let mut sink = String::new(); json_sexp(&j, &mut sink, &mut texts); lines.push_str("compute"); }
+            (true, Err(_), false) => lines.push_str("compute"),
+            (false, _, _) => lines.push_str("nojson"),
         }
         lines.push(')');
     }
@@ -245,11 +250,12 @@ pub fn facts_sexp(c: &Case) -> String {
     let mut f64s = String::from("(f64");
     let mut reals: BTreeSet<u64> = BTreeSet::new();
     reals.insert(0x7ff8000000000000);
+    let ship = crate::util::ship_facts(crate::util::SITE_E2E_F64);
     if want_f64 {
         for t in &texts {
             match f64::from_str(t) {
-                Ok(f) => { f64s.push_str(&format!(" ({} {})", hexs(t), f.to_bits())); collect_reals(&Value::Float(Float(f)), &mut reals); }
-                Err(_) => f64s.push_str(&format!(" ({} none)", hexs(t))),
+                Ok(f) => { if ship { f64s.push_str(&format!(" ({} {})", hexs(t), f.to_bits())); } collect_reals(&Value::Float(Float(f)), &mut reals); }
+                Err(_) => if ship { f64s.push_str(&format!(" ({} none)", hexs(t))) },
             }
         }
     }
